@@ -244,6 +244,43 @@ def _judge_training(rng, tag):
     return out
 
 
+def _judge_list_sender(rng, tag):
+    """feedback from a LIST of senders (r <<= [a, b]): the receiver sees the side-by-side concatenation of the senders' previous outputs"""
+    import reservoirpy as rpy
+    rpy.verbosity(0)
+    from reservoirpy.node import Node
+    seen = []
+
+    def init(node, x=None, **kw):
+        node.set_input_dim(x.shape[1]); node.set_output_dim(x.shape[1])
+
+    def rf(n, x):
+        seen.append(np.asarray(n.feedback()).ravel().copy())
+        return x
+    ka, kb = float(rng.randint(2, 5)), float(rng.randint(6, 9))
+    A = Node(forward=lambda n, x: x * ka, initializer=init, name="ls%s_A" % tag)
+    B = Node(forward=lambda n, x: x + kb, initializer=init, name="ls%s_B" % tag)
+    R = Node(forward=rf, initializer=init, name="ls%s_R" % tag)
+    R <<= [A, B]
+    down = rng.random() < 0.5
+    m = (R >> A >> B) if down else (A >> B >> R)
+    T = 4
+    X = scen.fl(scengen.rows(rng, T, 1))
+    try:
+        m.run(X)
+    except Exception as e:
+        return _viol("list-sender:exception", "feedback from a list of nodes raises %r" % (e,), {"tag": tag, "kind": "list-sender", "down": down})
+    a = X * ka
+    b = (a if down else a) + kb
+    for t in range(T):
+        exp = np.zeros(2) if t == 0 else np.array([a[t - 1, 0], b[t - 1, 0]])
+        got = seen[-T + t]
+        if got.shape != exp.shape or not np.allclose(sorted(got), sorted(exp), atol=1e-9):
+            return _viol("list-sender:not-all-delivered", "step %d: the receiver of feedback from [A, B] saw %s, expected the concatenation of both previous outputs %s"
+                         % (t, got.tolist(), exp.tolist()), {"tag": tag, "kind": "list-sender", "down": down}, exp.tolist(), got.tolist())
+    return None
+
+
 def judge(case):
     return _judge(case["scenario"])
 
@@ -260,12 +297,18 @@ def oracle(ctx, scale=1):
             out.append(v)
     for i in range(ctx.n(3, 20)):
         out += _judge_training(rng, "%d_%d" % (ctx.seed, i))
+        v = _judge_list_sender(rng, "%d_%d" % (ctx.seed, i))
+        if v:
+            out.append(v)
     return {"evaluations": n + ctx.n(3, 20), "violations": out,
             "rule": "feedback value seen by a receiver (recovered from out = x + 100 fb) vs sender's previous output / forced value; fit and train forcing"}
 
 
 def replay(payload):
     sc = payload["scenario"]
+    if sc.get("kind") == "list-sender":
+        vs = [v for v in (_judge_list_sender(core.random.Random(i), "rp%d" % i) for i in range(6)) if v]
+        return {"violates": bool(vs), "detail": vs[:1]}
     if sc.get("kind") in ("fit", "train"):
         v = _judge_training(core.random.Random(str(sc["tag"])), "rp")
         return {"violates": bool(v), "detail": v}
